@@ -19,10 +19,12 @@ FORMATS = ('csv', 'xls', 'aif')
 IN_DOMAIN = {
     'csv': [('plain', 'hello'), ('unicode', 'Üñí-µm'), ('spaced', 'hello world'), ('int', 5), ('zero', 0), ('float', 5.5), ('negfloat', -2.25),
             ('bool', True), ('boolf', False), ('sci', 1.25e-12), ('big', 1e22), ('dotted', 'v1.2.3'), ('ключ', 'значение'),
-            ('posexp', 2.5e+17), ('negposexp', -6.71e+18), ('exp16', 1e16)],
+            ('posexp', 2.5e+17), ('negposexp', -6.71e+18), ('exp16', 1e16),
+            ('cation', 'Na'), ('upper_na', 'NA'), ('word_null', 'null'), ('slash', 'n/a'), ('yes', 'yes'), ('word_t', 'T')],
     'aif': [('plain', 'hello'), ('unicode', 'Üñí-µm'), ('spaced', 'hello world'), ('int', 5), ('zero', 0), ('float', 5.5), ('negfloat', -2.25),
             ('bool', True), ('boolf', False), ('sci', 1.25e-12), ('big', 1e22), ('dotted', 'v1.2.3'),
-            ('posexp', 2.5e+17), ('negposexp', -6.71e+18), ('exp16', 1e16)],
+            ('posexp', 2.5e+17), ('negposexp', -6.71e+18), ('exp16', 1e16),
+            ('cation', 'Na'), ('upper_na', 'NA'), ('word_null', 'null'), ('slash', 'n/a'), ('yes', 'yes'), ('word_t', 'T')],
     'xls': [('plain', 'hello'), ('unicode', 'Üñí-µm'), ('spaced', 'hello, world; "quoted"'), ('float', 5.5), ('negfloat', -2.25), ('intf', 5.0),
             ('bool', True), ('boolf', False), ('sci', 1.25e-12), ('text_int', '5'), ('text_true', 'true'), ('key with blank', 'v'),
             ('posexp', 2.5e+17), ('negposexp', -6.71e+18)],
@@ -113,6 +115,8 @@ def compare(iso, back, fmt, meta_keys):
                 elif x != y:
                     out.append(('data-column', f'{col}: {x} -> {y}', {'column': 'text'}))
     if isinstance(iso, pygaps.ModelIsotherm):
+        if getattr(iso, 'branch', None) != getattr(back, 'branch', None):
+            out.append(('model-branch', f'the branch the model describes: {getattr(iso, "branch", None)!r} -> {getattr(back, "branch", None)!r}', {}))
         m1, m2 = iso.model, back.model
         if m1.name != m2.name:
             out.append(('model-name', f'{m1.name} -> {m2.name}', {}))
@@ -246,7 +250,7 @@ def work(arg):
             res['viol'] += one(iso, fmt, target, cls, {'units': cfg, 'material': mat}, {'material': 'with-properties'}, ['note'])
         elif kind == 'model':
             name, how = spec
-            extra_kw = dict(rmse=0.0, prange=(0.0, 0.9), lrange=(0.0, 3.5)) if how == 'zero-fields' else {}
+            extra_kw = dict(rmse=0.0, prange=(0.0, 0.9), lrange=(0.0, 3.5)) if how == 'zero-fields' else ({'branch': 'des'} if how == 'desorption-branch' else {})
             mk = core.call(g.mk_model, cfg, name, meta_small, fitted_dr=(how == 'fitted'),
                            params=({'K': 3.456789e-06, 'n_m': 4.5123456789} if how == 'small-parameters' else None), **extra_kw)
             if not mk.ok:
@@ -294,7 +298,7 @@ def run(ctx):
             sh = shapes if (not ctx.quick or ci in (0, 4)) else shapes[ci % 6::6]
             for spec in sh:
                 jobs.append(('point', fmt, cfg, spec, ctx.scale))
-            for spec in g.ZERO_SHAPES + g.EARLY_SHAPES:
+            for spec in g.ZERO_SHAPES + g.EARLY_SHAPES + g.WORDS_SHAPES:
                 if not ctx.quick or ci in (0, 3, 5) or spec[0] == 4:
                     jobs.append(('point', fmt, cfg, spec, ctx.scale))
             jobs.append(('converted', fmt, cfg, (4, 'guessable', 'numeric'), ctx.scale))
@@ -320,6 +324,8 @@ def run(ctx):
                     jobs.append(('model', fmt, cfg, (name, 'small-parameters'), ctx.scale))
                 if name in ('Langmuir', 'Henry', 'Toth'):
                     jobs.append(('model', fmt, cfg, (name, 'zero-fields'), ctx.scale))
+                if name in ('Langmuir', 'DR', 'Virial'):
+                    jobs.append(('model', fmt, cfg, (name, 'desorption-branch'), ctx.scale))
             if ci in (0, 2):
                 jobs.append(('from_model', fmt, cfg, None, ctx.scale))
         for cls in ('base', 'point'):
